@@ -522,3 +522,12 @@ Proof.
   intros Hc Hs. exists (bsi v c). split; [now apply code_binary_search_interval|].
   exact (bsi_first v c Hc Hs).
 Qed.
+
+(* ---------- minmax_scale (utils/transformations.py; plain numpy, translated with the same reading) ---------- *)
+Theorem code_minmax_scale l : py_minmax_scale l = minmax_scale l.
+Proof.
+  unfold py_minmax_scale, minmax_scale. cbv zeta.
+  destruct (Qeq_bool (Qmax_list l) (Qmin_list l)).
+  - unfold onesQ, zlen. rewrite Nat2Z.id. induction l as [|x t IH]; simpl; [reflexivity|]. now rewrite IH.
+  - unfold vdivs, vsubs. rewrite map_map. reflexivity.
+Qed.
